@@ -98,7 +98,7 @@ def gen_source(rnd, idx, supplemental=False, same_layout_as=None):
         if r['exp'] and lay['mode'] != 'template':
             j = lay['roles'].index('description')
             word = rnd.choice(WORDS)
-            d = 'S%d %s %s' % (idx, word if rnd.random() < .7 else word.lower(), rnd.choice(['#12', 'WA', '42', '', 'x']))
+            d = 'S%d %s %s' % (idx, word if rnd.random() < .7 else word.lower(), rnd.choice(['#12', 'WA', '42', '', 'x', '"Q"', 'x, y', "5' 2\""]))
             d = d.strip()
             if j < len(r['cells']):
                 r['cells'][j] = rnd.choice(['', ' ']) + d + rnd.choice(['', ' '])
